@@ -334,4 +334,7 @@ pub struct WorkerIoConfig {
   pub target_endpoint_uri: String,
   /// The ISocketConnection interface for this connection, used in UringConnectionEstablished.
   pub connection_iface: Arc<dyn ISocketConnection>,
+  /// Identifies this connection among all that ever had its descriptor number (see
+  /// `UringOpRequest::ShutdownConnectionHandler`).
+  pub conn_token: u64,
 }
